@@ -73,21 +73,21 @@ fn main() {
         } else {
             String::new()
         };
-        // an allocation refused by the capped allocator is located by the innermost calamine
-        // frame of the backtrace (the panic location itself is the allocator)
-        let loc = if msg.contains("verif-alloc-cap") {
+        // the failure is attributed to the innermost calamine frame of the backtrace that is not
+        // a src/utils.rs helper (the raw location is kept as a fallback)
+        let loc = if std::env::var("VH_PANIC_INFO").is_ok() {
             let bt = std::backtrace::Backtrace::force_capture().to_string();
-            let mut found = String::from("fn:unknown");
+            let mut found = None;
             for l in bt.lines() {
                 let l = l.trim();
                 if let Some(i) = l.find("calamine::") {
-                    if !l.contains("verif_hooks") {
-                        found = format!("fn:{}", &l[i..]);
+                    if !l.contains("verif_hooks") && !l[i..].starts_with("calamine::utils::") {
+                        found = Some(format!("fn:{}", &l[i..]));
                         break;
                     }
                 }
             }
-            found
+            found.unwrap_or(loc)
         } else {
             loc
         };
